@@ -1,6 +1,7 @@
 package main
 
 import (
+	"encoding/json"
 	"fmt"
 	"regexp"
 	"strings"
@@ -196,7 +197,7 @@ func runC03(e *env) {
 		prof := profile{Unions: true, Structs: true, NamedBasics: true, Enums: true, Containers: true, Time: true, Embedded: true, SubPkg: true, ModShape: 0, NoNamedTime: true, NoBytes: true, TagsSafe: true, SiblingMembers: true}
 		specs = append(specs, synthModule(e.r, prof, i))
 	}
-	obs := observeAll(specs, "gounions,ts", 14)
+	obs := observeAll(specs, "gounions,ts,decls", 14)
 	results := make([]*binResult, len(specs))
 	var wg sync.WaitGroup
 	sem := make(chan struct{}, 8)
@@ -260,7 +261,9 @@ func runC03(e *env) {
 		if len(docs) > 0 {
 			e.m.sample(map[string]interface{}{"module": spec.Name, "declarations": len(decls), "documents": len(docs)})
 		}
-		cases = append(cases, fmt.Sprintf("{| c3_prog := %s;\n c3_enums := %s;\n c3_ana := %s;\n c3_env := %s;\n c3_docs := %s |}", o.Facts, o.Enums, o.Ana, coqListNL(decls), coqListNL(docs)))
+		tsl := tsListSkeleton(o)
+		e.m.count("ts_list_" + strings.ToLower(strings.TrimPrefix(strings.SplitN(strings.Trim(tsl, "("), " ", 2)[0], "Ts")))
+		cases = append(cases, fmt.Sprintf("{| c3_tsl := %s;\n c3_prog := %s;\n c3_enums := %s;\n c3_ana := %s;\n c3_env := %s;\n c3_docs := %s |}", tsl, o.Facts, o.Enums, o.Ana, coqListNL(decls), coqListNL(docs)))
 		inputs = append(inputs, map[string]interface{}{"module": spec, "typescript": o.Gen["ts"].Text, "class": cls})
 		if len(cases) == 2 {
 			e.writeCases2(fmt.Sprintf("cases_C03_%d", len(e.m.CaseFiles)), anaHeader+"From GM Require Import Sem.GoJson Sem.TsSem Model.TsTypes Corr.Check_C03.\n", "mismatches", "prop_failures", cases, inputs)
@@ -303,3 +306,41 @@ func corpusTS() []*modSpec {
 }
 
 func withClass(m *modSpec, class string) *modSpec { m.Class = class; return m }
+
+// tsListSkeleton returns the Coq term (ts_obs) for the declaration list of the real TypeScript generator: for every
+// declaration its ID and what the reader of the emitted subset finds in its text
+func tsListSkeleton(o *obsResult) string {
+	switch o.Gen["ts"].Outcome {
+	case "diag":
+		return "TsDiag"
+	case "crash":
+		return "TsCrash"
+	case "ok":
+	default:
+		return "TsSkip"
+	}
+	d := o.Gen["decls"]
+	if d.Outcome != "ok" {
+		return "TsSkip"
+	}
+	var lists map[string][]c19decl
+	if err := json.Unmarshal([]byte(d.Text), &lists); err != nil {
+		return "TsSkip"
+	}
+	l, ok := lists["ts"]
+	if !ok {
+		return "TsSkip"
+	}
+	var out []string
+	for _, decl := range l {
+		if decl.ID == "__header" {
+			continue
+		}
+		ds, unparsed := readTS(decl.Content)
+		if len(unparsed) > 0 {
+			return "TsSkip" // reported by the reader of the whole file
+		}
+		out = append(out, fmt.Sprintf("{| to_id := %s; to_decls := %s |}", coqStr(decl.ID), coqList(ds)))
+	}
+	return "(TsOk " + coqListNL(out) + ")"
+}
